@@ -541,6 +541,14 @@ class TorControlProtocol(LineOnlyReceiver):
         strargs = [str(x) for x in args]
         keys = [strargs[i] for i in range(0, len(strargs), 2)]
         values = [strargs[i] for i in range(1, len(strargs), 2)]
+        for k in keys:
+            # a keyword is a single token; anything else would change
+            # what Tor parses (or, with a line break, start another
+            # command)
+            if not k or any(c in k for c in ' \t\r\n\v\f="'):
+                d = defer.Deferred()
+                d.errback(ValueError("Invalid configuration keyword {!r}".format(k)))
+                return d
 
         def maybe_quote(s):
             # Tor splits SETCONF arguments at whitespace; a value that
